@@ -120,7 +120,7 @@ Qed.
 Lemma reg_ok_parts f env g : env_ok f env -> reg_ok f g ->
   (fst (rg_rq g) < length env)%nat /\ okn env (rg_rq g) /\ okn env (rg_d g) /\ okn env (rg_q g) /\
   RegSound.opt_ok env (rg_e g) /\ RegSound.opt_ok env (rg_r g) /\
-  match rg_e g with Some e' => snd e' = 1 | None => True end /\ - 2 ^ 31 < rg_rv g < 2 ^ 31 /\ snd (rg_rq g) = snd (rg_q g).
+  enable_ok g = true /\ - 2 ^ 31 < rg_rv g < 2 ^ 31 /\ snd (rg_rq g) = snd (rg_q g).
 Proof.
   intros He [Hwf Hn]. unfold reg_wf in Hwf.
   repeat (apply andb_prop in Hwf; let H := fresh "Hw" in destruct Hwf as [Hwf H]).
@@ -136,7 +136,7 @@ Proof.
     apply (env_ok_okn f); auto; [|lia]. now apply andb_prop in Hne.
   - destruct (rg_r g) as [r|]; cbn [RegSound.opt_ok opt_list forallb] in *; auto.
     apply (env_ok_okn f); auto; [|lia]. now apply andb_prop in Hnr.
-  - destruct (rg_e g); auto. lia.
+  - assumption.
   - lia.
   - lia.
 Qed.
@@ -149,7 +149,11 @@ Lemma reg_edge_value f env g st : env_ok f env -> reg_ok f g ->
 Proof.
   intros He Hg Hinv.
   destruct (reg_ok_parts f env g He Hg) as (Hi & Hrq & Hd & Hq & Hoe & Hor & He1 & Hrv & Ew).
-  pose proof (body_reg_sound env (rg_rq g) (rg_d g) (rg_e g) (rg_r g) (rg_rv g) st Hi Hrq Hd Hoe Hor He1 Hrv) as B.
+  (* body_reg_sound has the 1-bit-enable premise only while BodyReg tests `e == 1` *)
+  first [ assert (He1' : match rg_e g with Some e' => snd e' = 1 | None => True end)
+            by (unfold enable_ok in He1; destruct (rg_e g); [lia | exact I]);
+          pose proof (body_reg_sound env (rg_rq g) (rg_d g) (rg_e g) (rg_r g) (rg_rv g) st Hi Hrq Hd Hoe Hor He1' Hrv) as B
+        | pose proof (body_reg_sound env (rg_rq g) (rg_d g) (rg_e g) (rg_r g) (rg_rv g) st Hi Hrq Hd Hoe Hor Hrv) as B ].
   fold (reg_proc g) in B. destruct (reg_exec env g []) as [Ex _]. rewrite Ex in B. cbn [app] in B.
   unfold reg_sim. rewrite <- Ew.
   replace (has (rg_e g)) with (RegSound.is_some (rg_e g)) by (destruct (rg_e g); reflexivity).
